@@ -455,7 +455,8 @@ func (doc *T) derefRequestBody(r RequestBody, refNameResolver RefNameResolver, p
 func (doc *T) derefPaths(paths map[string]*PathItem, refNameResolver RefNameResolver, parentIsExternal bool) {
 	for _, name := range componentNames(paths) {
 		ops := paths[name]
-		pathIsExternal := isExternalRef(ops.Ref, parentIsExternal)
+		// what hangs below a path item of an external document belongs to that document too
+		pathIsExternal := parentIsExternal || isExternalRef(ops.Ref, parentIsExternal)
 		// inline full operations
 		ops.Ref = ""
 
